@@ -15,7 +15,7 @@ What is abstracted
 
 Two separate walks over the attribute list decide whether a peer message is accepted, and both are transcribed here as coded:
 `prescan` = `hasMessageIntegrity` in handleDatagram (true at the first MESSAGE-INTEGRITY, FALSE at a FINGERPRINT met first) and
-`decodeWalk` = the attribute loop of `QXmppStunMessage::decode` (verifies the first MESSAGE-INTEGRITY it meets, skips everything
+`decodeWalk`/`decodeKeyed` = the attribute loop of `QXmppStunMessage::decode` plus its final "missing MESSAGE-INTEGRITY" test (verifies the first MESSAGE-INTEGRITY it meets, skips everything
 but FINGERPRINT after it, and STOPS SUCCESSFULLY at a FINGERPRINT, so anything behind a FINGERPRINT is never looked at).
 Peer messages for which the pre-scan finds no MESSAGE-INTEGRITY are dropped before decoding (repo commit f41aa68
 "fix: ICE accepts connectivity checks that carry no MESSAGE-INTEGRITY"); before that commit `decode` verified the attribute
@@ -168,6 +168,7 @@ inductive Out
   | warnNoMi                                   -- "Dropping STUN packet with missing MESSAGE-INTEGRITY"
   | warnBadFp                                  -- "Bad fingerprint"
   | warnTruncAttr                              -- "Truncated STUN attribute …" (repo commit df53ac0)
+  | warnMissingMi                              -- "Missing MESSAGE-INTEGRITY" from `decode` (repo commit 80bab8b)
   | roleConflict                               -- "Role conflict, expected to be …"
   | bindingResponse (to : Nat) (txid : Nat)    -- Binding success response written to `to`
   | checkSent (to : Nat) (txid : Nat) (useCandidate : Bool)   -- first transmission of a connectivity check
@@ -306,7 +307,7 @@ def handleResponse (s : St) (src : Nat) (m : Stun) : St × List Out :=
       (r.1, .pairState p.remote .failed :: r.2)
 
 /-- outcome of `QXmppStunMessage::decode(buffer, key)` as far as the attribute walk is concerned -/
-inductive Dec | ok | badMi | badFp | truncAttr | silent
+inductive Dec | ok | badMi | badFp | truncAttr | silent | missingMi
   deriving DecidableEq, Repr
 
 /-- the check made on a MESSAGE-INTEGRITY attribute when `decode` meets it (the key is never empty on the peer path);
@@ -342,6 +343,24 @@ def decodeWalk (keyRemote : Bool) : Bool → List Attr → Dec
   | afterIntegrity, .other :: rest => decodeWalk keyRemote afterIntegrity rest
   | afterIntegrity, .useCandidate :: rest => decodeWalk keyRemote afterIntegrity rest
   | afterIntegrity, .priority _ :: rest => decodeWalk keyRemote afterIntegrity rest
+
+/-- `after_integrity` when the attribute loop of `decode` stops (at the end of the attributes or at a good FINGERPRINT): has it
+met — and, with a key, verified — a MESSAGE-INTEGRITY?  (Its own bookkeeping, independent of the pre-scan in handleDatagram.) -/
+def decodeSawMi : List Attr → Bool
+  | [] => false
+  | .mi _ :: _ => true
+  | .fingerprint _ :: _ => false
+  | .overrun :: _ => false
+  | .other :: rest => decodeSawMi rest
+  | .useCandidate :: rest => decodeSawMi rest
+  | .priority _ :: rest => decodeSawMi rest
+
+/-- `QXmppStunMessage::decode(buffer, key)` with a non-empty key: the attribute loop, then (repo commit 80bab8b) "a request or
+success response without MESSAGE-INTEGRITY is not accepted" — `needMi` = the class is neither Error nor Indication. -/
+def decodeKeyed (keyRemote needMi : Bool) (attrs : List Attr) : Dec :=
+  match decodeWalk keyRemote false attrs with
+  | .ok => if needMi && !decodeSawMi attrs then .missingMi else .ok
+  | e => e
 
 /-- attributes that cannot make `decode` fail when they sit behind a verified MESSAGE-INTEGRITY -/
 def Attr.harmless : Attr → Bool
@@ -391,6 +410,7 @@ def decodeNoKey : Bool → List Attr → Dec
 transaction.  Its source address is NOT compared with the server's. -/
 def reactServer (s : St) (m : Stun) : St × List Out :=
   match decodeNoKey false m.attrs with
+  | .missingMi => (s, [.warnMissingMi])     -- never: no key
   | .badMi => (s, [.warnBadMi])
   | .badFp => (s, [.warnBadFp])
   | .truncAttr => (s, [.warnTruncAttr])
@@ -416,11 +436,12 @@ def reactPeer (s : St) (src : Nat) (m : Stun) : St × List Out :=
   let keyRemote := m.cls == .response || m.cls == .error
   if keyRemote && !s.remotePwSet then (s, []) else
   if !prescan m.attrs then (s, [.warnNoMi]) else             -- `!hasMessageIntegrity(buffer)`
-  match decodeWalk keyRemote false m.attrs with
+  match decodeKeyed keyRemote (m.cls == .request || m.cls == .response) m.attrs with
   | .badMi => (s, [.warnBadMi])
   | .badFp => (s, [.warnBadFp])
   | .truncAttr => (s, [.warnTruncAttr])
   | .silent => (s, [])
+  | .missingMi => (s, [.warnMissingMi])      -- unreachable behind the pre-scan (theorem `decode_never_misses_mi_behind_prescan`)
   | .ok =>
     if m.method != .binding then (s, [.accepted]) else
     match m.cls with
@@ -600,6 +621,7 @@ def wire (sender : St) (from_ : Nat) : Out → Option (Nat × Datagram)
   | .warnNoMi => none
   | .warnBadFp => none
   | .warnTruncAttr => none
+  | .warnMissingMi => none
   | .roleConflict => none
   | .pairState _ _ => none
   | .selected _ _ => none
